@@ -191,8 +191,11 @@ def run_shards(prop: str, tier: str, seed: int, nshards: int, budget_s: float) -
     try:
         for i in range(nshards):
             out = tmp / f"shard{i}.json"
+            # every fourth shard runs its interpreter with -O (assert statements stripped, __debug__ False), as deployments started with
+            # PYTHONOPTIMIZE do: library code must not depend on an assert for its effects (the harness's own asserts carry none)
+            opt = ["-O"] if (i + seed) % 4 == 3 else []
             cmd = [
-                PY, "-X", "faulthandler", "-W", "error::RuntimeWarning", "-m", "vf.worker",
+                PY, *opt, "-X", "faulthandler", "-W", "error::RuntimeWarning", "-m", "vf.worker",
                 prop, "--shard", str(i), "--nshards", str(nshards), "--tier", tier,
                 "--seed", str(seed), "--out", str(out), "--watchdog", str(int(budget_s)),
             ]
